@@ -860,6 +860,12 @@ pub fn gen_triggers(d: &Desc) -> Vec<&'static str> {
             if matches!(f.kind, FieldKind::Body) && !t.contains(&"body-field") {
                 t.push("body-field");
             }
+            if let FieldKind::ElementSize { field_id, .. } = &f.kind {
+                let scalar_elems = decl.fields().iter().any(|g| matches!(&g.kind, FieldKind::Array { id, elem, .. } if id == field_id && (matches!(elem, Elem::Width(_)) || matches!(elem, Elem::Type(t3) if matches!(d.get(t3).map(|x| &x.kind), Some(DeclKind::Enum { .. }))))));
+                if scalar_elems && !t.contains(&"elementsize-of-scalar-or-enum-elements") {
+                    t.push("elementsize-of-scalar-or-enum-elements");
+                }
+            }
         }
     }
     t
